@@ -37,6 +37,10 @@ claim("C18",
       "Theorems dumpLayout_parse (for every layout over kinds 0..255 incl. unknown kinds and every EOL padding 0..255 the text printed by TCPOptions.dump parses back to exactly that layout and padding) and dumpQuirks_parse (for every one of the 2^17 quirk sets legal for the stated version, dump_quirks text parses back to exactly that set), proved pointwise / by induction, using Std's Nat.toNat?_repr and core's splitOn_intercalate. Tied to the code by printing real extracted packets, parsing and matching them (must be exact) and by function-level round trips over arbitrary layouts / masks.",
       BASE_NOTE + "Texts are ASCII. The whole-signature round trip (printed signature matches its packet exactly) is checked by correspondence + oracle; its Lean theorem is part of C09's parse/render work.",
       "Lean 4 round-trip proofs (induction over layout / quirk list) + differential correspondence", "5 C18")
+claim("C08",
+      "Theorems fpMtu_spec (MTU = MSS+40 / MSS+60; PacketError exactly for no MSS / fragment / other flags), findMtu_first (earliest record with exactly that MTU, or none), impMtu_frame (all other options and their order untouched), impMtu_in_place (positions of MSS entries kept, every one carries MTU-header), impMtu_prepend - for all option lists, MTU values and databases. The round trip 'MTU fingerprint of the impersonated packet is m' is decided by the property oracle on the real output (and by the model of Scapy's option encoding + the verified option walk) over base option lists incl. MSS 0, duplicates, EOL/garbage, every position.",
+      BASE_NOTE + "PARTIAL: the round-trip clause is not yet a Lean theorem (needs the encode/parse composition lemma, planned with C05); it is decided by oracle + correspondence. A base whose MSS option sits behind an EOL cannot be fixed by an in-place replacement; those inputs are outside the round-trip clause.",
+      "Lean 4 proofs of selection / frame / in-place theorems + property oracle and differential correspondence for the round trip", "5 C08")
 
 ALL = [f"C{i:02d}" for i in range(1, 19)]
 checks = []
